@@ -70,8 +70,9 @@ def main():
             continue   # a probe that never gets past a missing model: no need to repeat it 720 times
         I.start_path([])
         try:
-            out = I.call(r['fn'], [cstr(r['a']), cstr(r['b']), r['i'], r['j']])
-            mv = {'s': to_py(out)} if r['fn'].startswith('s_') else {'v': to_py(out)}
+            fname = r['fn'] if r['fn'] in crate.funcs else 'more::' + r['fn']
+            out = I.call(fname, [cstr(r['a']), cstr(r['b']), r['i'], r['j']])
+            mv = {'s': to_py(out)} if r['fn'].startswith(('s_', 'ms_')) else {'v': to_py(out)}
         except RustPanic:
             mv = {'panic': True}
         except Unsupported as e:
